@@ -23,7 +23,7 @@ import (
 const (
 	callTimeout = 60 * time.Second
 	hangGrace   = 15 * time.Second
-	chunkSize   = 250
+	chunkSize   = 1000
 	workers     = 6
 )
 
@@ -85,7 +85,7 @@ func registerCases(in *kit.Instance, tbl []caseSpec) {
 				return nil, errors.New("c02 fixture: unknown tool case " + key)
 			}
 			if c.Err != nil {
-				return nil, errors.New(c.errMsg())
+				return nil, c.handlerErr()
 			}
 			return c.toolResult(), nil
 		})
@@ -97,7 +97,7 @@ func registerCases(in *kit.Instance, tbl []caseSpec) {
 				return nil, errors.New("c02 fixture: unknown prompt case " + key)
 			}
 			if c.Err != nil {
-				return nil, errors.New(c.errMsg())
+				return nil, c.handlerErr()
 			}
 			return c.promptResult(), nil
 		})
@@ -110,14 +110,14 @@ func registerCases(in *kit.Instance, tbl []caseSpec) {
 		if c.Single {
 			in.RegisterResource(res, func(ctx context.Context, req *mcp.ReadResourceRequest) (mcp.ResourceContents, error) {
 				if c.Err != nil {
-					return nil, errors.New(c.errMsg())
+					return nil, c.handlerErr()
 				}
 				return buildRC(c.Items[0]), nil
 			})
 		} else {
 			in.RegisterResources(res, func(ctx context.Context, req *mcp.ReadResourceRequest) ([]mcp.ResourceContents, error) {
 				if c.Err != nil {
-					return nil, errors.New(c.errMsg())
+					return nil, c.handlerErr()
 				}
 				return c.resContents(), nil
 			})
@@ -162,6 +162,16 @@ func openSession(kind kit.Kind, fixture string, seed int64, tier string, reg fun
 	}
 	return s, nil
 }
+
+// harnessInterference recognises the one failure the harness inflicts on itself: the configurations run in
+// parallel in this process, every kit.Instance.Close ends in httptest.Server.Close, and that calls
+// http.DefaultTransport.CloseIdleConnections - the transport all library clients share. A request that picked
+// an idle connection at that moment fails with this text; the call is repeated alone (phase 2) and judged there.
+func harnessInterference(errText string) bool {
+	return strings.Contains(errText, "http: CloseIdleConnections called")
+}
+
+var harnessRetries atomic.Int64
 
 var (
 	closeMaxMilli  atomic.Int64
@@ -374,7 +384,18 @@ type kindRun struct {
 func runKind(r *vh.Run, kind kit.Kind, tbl []caseSpec, digest string) *kindRun {
 	kr := &kindRun{kind: kind, results: map[int]*result{}}
 	reg := func(in *kit.Instance) { registerCases(in, tbl) }
-	open := func() (*session, error) { return openSession(kind, "c02", r.Seed, r.Tier, reg) }
+	open := func() (*session, error) {
+		// httptest.Server.Close (another configuration finishing a chunk) closes the idle connections of
+		// http.DefaultTransport, which the library's clients share: an initialize that loses its connection to
+		// that is the harness's doing and is repeated
+		for try := 0; ; try++ {
+			s, err := openSession(kind, "c02", r.Seed, r.Tier, reg)
+			if err == nil || try >= 3 || !harnessInterference(err.Error()) {
+				return s, err
+			}
+			harnessRetries.Add(1)
+		}
+	}
 	probe := func(s *session) bool {
 		pr := execCase(s, &tbl[0])
 		return !pr.HasErr && !pr.TimedOut && len(pr.Diffs) == 0
@@ -407,6 +428,10 @@ func runKind(r *vh.Run, kind kit.Kind, tbl []caseSpec, digest string) *kindRun {
 			req.Params.Arguments = map[string]interface{}{"case": "__digest"}
 			ctx, cancel := context.WithTimeout(context.Background(), 30*time.Second)
 			out, err := s.c.CallTool(ctx, req)
+			if err != nil && harnessInterference(err.Error()) {
+				harnessRetries.Add(1)
+				out, err = s.c.CallTool(ctx, req)
+			}
 			cancel()
 			got := ""
 			if err == nil && len(out.Content) == 1 {
@@ -467,7 +492,13 @@ func runKind(r *vh.Run, kind kit.Kind, tbl []caseSpec, digest string) *kindRun {
 			}
 		}
 		res := execCase(s, &tbl[i])
-		if prev := kr.results[i]; prev != nil && (prev.HasErr || prev.TimedOut) && !(res.HasErr || res.TimedOut) {
+		for try := 0; try < 3 && res.HasErr && harnessInterference(res.Err); try++ {
+			harnessRetries.Add(1)
+			res = execCase(s, &tbl[i])
+		}
+		if prev := kr.results[i]; prev != nil && prev.HasErr && !prev.TimedOut && harnessInterference(prev.Err) && !(res.HasErr || res.TimedOut) {
+			harnessRetries.Add(1) // not an observation of the library, see harnessInterference
+		} else if prev != nil && (prev.HasErr || prev.TimedOut) && !(res.HasErr || res.TimedOut) {
 			res.FirstErr = prev.Err
 			if prev.TimedOut {
 				res.FirstErr = "timed out: " + prev.Err
@@ -557,6 +588,7 @@ func main() {
 		r.Fatal("case table is not a deterministic function of the seed")
 	}
 	selfTest(r, tbl)
+	selfTestErrValues(r, tbl)
 	nBig := 0
 	for i := range tbl {
 		r.SetAdd("methods", tbl[i].Method)
@@ -595,10 +627,11 @@ func main() {
 	case <-closed:
 	case <-time.After(12 * time.Second):
 	}
+	r.Count("calls_repeated_after_httptest_closed_idle_connections", harnessRetries.Load())
 	r.Max("client_close_ms", closeMaxMilli.Load())
 	r.Count("client_close_abandoned_after_10s", closeAbandoned.Load())
 
-	r.Finish("values: one atom per (method, content kind, string class) + extras (error flag, structured content depth 0-5, roles, descriptions, empty sequences) + handler errors per message class + seeded random combinations "+
+	r.Finish("values: one atom per (method, content kind, string class) + extras (error flag, structured content depth 0-5, roles, descriptions, empty sequences) + handler errors per message class + handler error VALUES (each of the forms: bare sentinel, %w at the start / end / middle, 2 and 4 levels, two %w, %v, errors.Join in four arrangements, custom types with Unwrap() error / Unwrap() []error on pointer and value receivers, Is and As methods, Timeout()/Temporary(), fmt.Formatter, embedded error interface, net.OpError / os.PathError / os.SyscallError / url.Error / json.MarshalerError / strconv.NumError around the sentinel; crossed with context, io, os, net, net/http, syscall errno and the library's exported Err* sentinels; the text alone in pointer / value / string / func kinds, typed nil pointer, json / net / http error structs; own texts rotate over all message classes; each served by a tool, a prompt, a single-content and a multi-content resource handler) + seeded random combinations "+
 		"(tool results 0-6 items x isError x structured content x _meta, prompt results 0-4 messages x roles x description x _meta, resource reads 1-4 contents; 40% drawn from text/image with non-empty strings, 60% from all five kinds and all classes); "+
 		"protocol look-alikes: six string classes (complete JSON-RPC messages, JSON fragments such as \"error\":, SSE fields / comments / frames, whitespace only, single quote / backslash / bracket, JSON literals) in every text kind, description and handler error message; "+
 		"a third of the URIs and MIME types are look-alikes; structured content and _meta (tools, prompts) with each of the 17 member names the decoders look for (error, result, id, jsonrpc, method, params, code, message, content, isError, contents, messages, type, text, data, resource, _meta) "+
@@ -615,6 +648,7 @@ func main() {
 			"a call that fails although the handler returned a result with look-alike structured content / _meta is attributed to that value when the single-item cases of its content items do not fail on the same configuration",
 			"a failing combination is attributed to its smallest failing component by looking up the single-item case of each of its (content kind, string class) components on the same configuration",
 			"a call that neither returns nor fails within 60 s is reported as inconclusive",
+			"the handler's message is err.Error() of the value the handler returned; the caller's error text has to contain all of it (for error values of every form, as for plain errors); error types with a fmt.Formatter print Error() under %v and %s",
 			"list order and pagination are not examined",
 		})
 }
@@ -629,7 +663,9 @@ func judgeValues(r *vh.Run, tbl []caseSpec, runs []*kindRun) {
 	atomSym := map[atomKey]map[string]bool{}
 	samples := 0
 	lookSamples := 0
+	evSamples := 0
 	look := newLookCount()
+	evs := newEVCount()
 
 	for _, kr := range runs {
 		for i := range tbl {
@@ -652,7 +688,13 @@ func judgeValues(r *vh.Run, tbl []caseSpec, runs []*kindRun) {
 					r.Max("payload_bytes_compared_equal", res.Bytes)
 					r.Max("payload_bytes_equal_"+string(kr.kind), res.Bytes)
 					look.count(r, kr.kind, c)
+					evs.count(r, kr.kind, c)
 				}
+			}
+			if c.EV != nil && evSamples < 5 && len(res.Diffs) == 0 && res.Compared && kr.kind == kit.AllKinds[(evSamples*2)%len(kit.AllKinds)] &&
+				c.EV.Form == []string{"wrap-suffix", "join", "unwrap-pointer-type", "typed-nil-pointer", "json.MarshalerError"}[evSamples] {
+				evSamples++
+				r.Sample(map[string]interface{}{"transport": kr.kind, "case": c, "handler_error": preview(c.errMsg()), "error_value": chainFacts(c.handlerErr()), "client_error": res.Err, "carried": true})
 			}
 			if res.HasErr {
 				r.Count("client_errors_"+c.Method, 1)
@@ -706,6 +748,9 @@ func judgeValues(r *vh.Run, tbl []caseSpec, runs []*kindRun) {
 			wit := func() map[string]interface{} { return witnessOf(kr.kind, res) }
 			// handler errors
 			if c.Err != nil {
+				if c.EV != nil { // error values: see evFindings
+					continue
+				}
 				for _, d := range res.Diffs {
 					findings = append(findings, finding{Method: c.Method, Kind: kr.kind, Content: kHErr, Class: c.Err.Class, Symptom: d.Symptom,
 						What: fmt.Sprintf("%s %s: handler error with a %s message: %s", kr.kind, c.Method, c.Err.Class, d.Detail), Witness: wit()})
@@ -811,6 +856,8 @@ func judgeValues(r *vh.Run, tbl []caseSpec, runs []*kindRun) {
 		}
 	}
 
+	findings = append(findings, evFindings(tbl, runs)...)
+
 	// wire corroboration for failing single items: what did the server put on the wire (library-free peer)?
 	corroborate(r, tbl, findings)
 
@@ -823,6 +870,7 @@ func judgeValues(r *vh.Run, tbl []caseSpec, runs []*kindRun) {
 		}
 	}
 	look.requireObserved(r)
+	evs.requireObserved(r)
 }
 
 // lookCount counts, per configuration, the protocol look-alikes that were fetched and compared equal.
